@@ -64,6 +64,11 @@ CLAIMED = {
         text="Decides: AND binds tighter than OR and parentheses re-enter at OR (call-graph stratification), each level consumes its own token and builds a node of that type, trailing tokens are rejected, token<->operator pairing in scalarComparisonHolds/isComparisonOperator/tokenizer, OR=union with neutral false and AND=intersection with neutral true down to std::set_union/set_intersection, the complete 32-row decision table of ActionX::ready, run bookkeeping in State, and that ACTIONX objects are applied only when drawn from Actions::pending and that the run is then recorded. Not decided: evaluation against concrete summary states, wildcard matching, date arithmetic.",
         note="Trusted: documented ACTIONX condition syntax frozen in rules/C18.py. Python-driven and by-name application of actions are outside the triggering limits and are not subject to the gate rule.",
         design="DESIGN.md §4 C18"),
+    "C20": dict(
+        technique="static analysis: call-graph closure of the parse/build/open entry points over the resolved ASTs of all library units; exception-type, terminator-reachability, noexcept/destructor-escape and catch-site completeness rules on that closure",
+        text="Decides only the exception-discipline clause of the property (a necessary condition: breaking it turns an input error into process termination): in the closure of Parser::parse*, the EclipseState/Schedule/SummaryConfig constructors and the result-file readers, every throw expression throws a type derived from std::exception (or rethrows), no exit/abort/terminate call is reachable except the exits the caller configured (ParseContext EXIT1, ErrorGuard), no noexcept function or destructor contains a throw or calls a directly throwing repository function outside a try block, and the wrapping catch sites cover std::exception and rethrow a documented type. NOT decided: out-of-bounds access, iterator/string_view arithmetic, hangs, undefined behaviour - these are runtime properties (sanitizers, fuzzing) outside this technique.",
+        note="Trusted: call graph from resolved callee names with overloads merged and every override of a same-named virtual included (over-approximation of reachability). Exceptions escaping from the standard library (std::stoi, .at()) are std::exception by construction.",
+        design="DESIGN.md §4 C20"),
     "C02": dict(
         technique="static analysis: table rules over the clang AST of UnitSystem.cpp/Units.hpp (reciprocal tables, dimensional formulas, compile-time constants vs an independent physical table, normal form of the conversion formulas) plus a scan of every compiled-in keyword's dimension strings",
         text="Decides, for the conversion factors as written: to_/from_ tables of all five systems are mutual reciprocals entry by entry (230 pairs), every measure has the same frozen dimensional formula in METRIC/FIELD/LAB/PVT-M, offsets exist only for temperature, init<SYS> wires tables and registers the same 31 dimension names with the system's own constants, every one of the 163 constants equals its physical definition (1e-12), to_si/from_si/Dimension::convert* have the affine normal forms that make them inverse, composite dimensions are product/quotient, every dimension string of the 1184 compiled-in keywords resolves in all four systems, and the output conversions are mirror images. Not decided: that each keyword item carries the physically right dimension; end-to-end equality of SI values between two decks.",
